@@ -6,7 +6,7 @@ import z3
 
 from contracts.trusted import COMMON, fresh_str
 from pyvc import extract
-from pyvc.contract import Bytes, Const, Contract, Int, NoneT, Obj, Str, Union
+from pyvc.contract import Loop, Bytes, Const, Contract, Int, NoneT, Obj, Str, Union
 from pyvc.runner import Bounded
 from pyvc.values import SDict, SObj, SStub
 
@@ -23,7 +23,7 @@ ASSUMPTIONS = [
     "constructors (cls(...)) raise only ValueError/TypeError: their validators _norm_salt/_norm_rounds/_norm_checksum are under contract separately (C09) and swept by the bounded stand-in",
     "regex engine: match() returns None or a match object whose groups are arbitrary strings / None (over-approximation)",
     "binary codecs raise only ValueError/TypeError (C12 contracts)",
-    "str.split results with more than 6 parts are represented by 7 parts",
+    "str.split results with more than 6 parts are represented by 7 parts (scram: more than 3 by 4; its parser compares the number of parts with 2 and 3 only)",
 ]
 
 HANDLER_FILES = sorted("passlib/handlers/" + f for f in os.listdir(os.path.join(extract.REPO, "passlib/handlers")) if f.endswith(".py") and f not in ("__init__.py", "argon2.py"))
@@ -69,7 +69,13 @@ def _contract(cid, target, params, is_identify, descr):
         cid, target, params=params, globals=GLOBALS,
         raises={} if is_identify else {"ValueError": None, "TypeError": None},
         ensures=[("identify answers a bool", "result is True or result is False")] if is_identify and "to_unicode" not in cid else [],
-        max_paths=1500, max_depth=8, canary=False, time_budget=40, prune_timeout_ms=100, descr=descr,
+        max_paths=1500, max_depth=8, canary=False, prune_timeout_ms=100, descr=descr,
+        **({} if cid.startswith("scram.") else {"time_budget": 40}),
+        # character loops over the input that only test each character: no invariant is needed for the exception frame
+        loops={"_norm_hash#0": Loop(invariant=[], modifies=["char"])} if cid.startswith("htdigest.") else {},
+        # scram nests two split loops: 3-part representatives keep the path count finite (its code compares len() with 2 / 3 only)
+        split_limit=3 if cid.startswith("scram.") else 6,
+        **({"time_budget": 120} if cid.startswith("scram.") else {}),
         # the bytes variants of needs_update differ from the str ones only by the initial ascii decoding,
         # which from_string[bytes] already covers: thorough tier only
         tier="thorough" if cid.endswith("needs_update[bytes]") else "quick",
